@@ -12,9 +12,9 @@
    one the correspondence check drives); C07_xz_reader_matches_whole_file turns the run-checked
    agreement between that model and the whole-file function xz_decode_c (the function of the C02 /
    C12 / C16 theorems) into a theorem, for the files the writer produces with LZMA2 payloads and
-   Delta pre-filters or none.  NOT proved: the same for files with BCJ filters (outside the
-   executable reader model), for several concatenated streams read call by call, for damaged files,
-   and for the LZIP call-by-call model lzr_read (only its zero-length read).  For LZMAReader / LZMA2Reader the streams are those the writer models produce
+   Delta pre-filters or none; C07_lzip_reader_* do the same for the call-by-call LZIPReader model
+   lzr_read.  NOT proved: the same for XZ files with BCJ filters (outside the executable reader
+   model), for several concatenated XZ streams read call by call, for damaged files.  For LZMAReader / LZMA2Reader the streams are those the writer models produce
    (for arbitrary, e.g. damaged, input the readers' results may well depend on the buffer sizes
    through the point at which an error is detected - that is C06 / C04's subject). *)
 From LzVerif Require Import Base.Bytes Codec.Store Codec.Range Codec.LzWindow Codec.LzmaDec Codec.LzmaEnc
@@ -23,7 +23,7 @@ From LzVerif Require Import Base.Bytes Codec.Store Codec.Range Codec.LzWindow Co
   Codec.Lzma2Dec Codec.Lzma2SpecProofs Codec.Lzma2FrameSyncProofs Codec.Lzma2ReadProofs
   Filter.Delta Filter.DeltaProofs Filter.Bcj Filter.BcjStream Filter.BcjStreamProofs Filter.BcjAllProofs
   Format.XzFormat Format.LzipFormat Format.XzProofs Format.ContainerRefutations Format.ComposeProofs
-  Format.ComposeExamplesProofs Format.XzReaderProofs.
+  Format.LzipProofs Format.ComposeExamplesProofs Format.XzReaderProofs Format.LzipReaderProofs.
 
 (* ---- zero-length reads ------------------------------------------------------------------------- *)
 Theorem C07_lzma1_zero_read : forall s buflen, buflen <= 0 -> lzma1_read s buflen = Ok ([], s).
@@ -150,6 +150,57 @@ Example C07_xz_reader_instance :
   match xz_encode (l2_penc 3 0 2 ch_ex) delta_fenc xz_fixed x_opts x_parts with
   | Ok f => match xzr_read_all 20 xz_fixed (xzr_new (f ++ [9; 9]) false) [3; 1] [3; 1] [] with
             | Ok (out, st, s) => out = x_data /\ st = 0 /\ xzr_unconsumed s = [9; 9]
+            | _ => False
+            end
+  | _ => False
+  end.
+Proof. vm_compute. repeat split; reflexivity. Qed.
+
+(* LZIPReader::read, call by call, on any sequence of members with LZMA payloads ([mgood]: header
+   byte announcing at least the dictionary in use, content bytes, the encoder's choices accepted by
+   the writer model with at most 2^32-7 coded bits); members after the first non-empty (what the
+   writer produces: C07_lzip_reader_written_file).  Every history of positive sizes: the
+   concatenated contents, then end of stream, everything consumed. *)
+Theorem C07_lzip_reader_any_sizes :
+  forall (ch : Z -> list Z -> list sym) (m : lzm) (ms : list lzm) sizes fuel,
+    Forall (mgood ch) (m :: ms) -> Forall nonempty_m ms -> Forall (fun z => 0 < z) sizes ->
+    (length (lm_data (m :: ms)) + 2 <= fuel)%nat ->
+    exists st, lzr_read_all fuel lz_fixed (lzr_new (lm_file (l1_penc ch) (m :: ms))) sizes sizes [] = Ok (lm_data (m :: ms), 0, st) /\
+               lzr_unconsumed st = [].
+Proof. exact lzr_read_all_rt. Qed.
+Print Assumptions C07_lzip_reader_any_sizes.
+
+Theorem C07_lzip_reader_matches_whole_file :
+  forall ch calls m ms sizes fuel,
+    Forall (lm_ok_l1 ch calls) (m :: ms) -> Forall nonempty_m ms -> Forall (fun z => 0 < z) sizes ->
+    (length (lm_data (m :: ms)) + 2 <= fuel)%nat ->
+    exists content left st,
+      lz_decode (lzip_payload_dec_n calls) lz_fixed (lm_file (l1_penc ch) (m :: ms)) = Ok (content, left) /\
+      lzr_read_all fuel lz_fixed (lzr_new (lm_file (l1_penc ch) (m :: ms))) sizes sizes [] = Ok (content, 0, st) /\
+      lzr_unconsumed st = left.
+Proof. exact lzr_read_all_is_decode. Qed.
+Print Assumptions C07_lzip_reader_matches_whole_file.
+
+(* on the file LZIPWriter returns, for every dictionary size, member size and write partition *)
+Theorem C07_lzip_reader_written_file :
+  forall ch o0 parts f sizes fuel,
+    bytes_ok (concat parts) = true ->
+    (forall members, lz_members_of (lo_member_size (lzw_new o0)) parts = Ok members ->
+       lz_sizes_ok (l1_penc ch) (lo_dict (lzw_new o0)) members /\
+       Forall (l1_member_ok ch (lo_dict (lzw_new o0))) members) ->
+    match lo_member_size o0 with Some m => 1 <= m | None => True end ->
+    lz_encode (l1_penc ch) o0 parts = Ok f ->
+    Forall (fun z => 0 < z) sizes -> (length (concat parts) + 2 <= fuel)%nat ->
+    exists st, lzr_read_all fuel lz_fixed (lzr_new f) sizes sizes [] = Ok (concat parts, 0, st) /\ lzr_unconsumed st = [].
+Proof. exact lzr_read_all_written. Qed.
+Print Assumptions C07_lzip_reader_written_file.
+
+(* non-vacuity: the LZIP hypotheses on a concrete member (C02_lzip_lzma1_hyps in C02Compose.v), and
+   the history 2, 5, 2, 5, ... evaluated on the file written twice *)
+Example C07_lzip_reader_instance :
+  match lz_encode (l1_penc ch1_ex) z_opts z_parts with
+  | Ok f => match lzr_read_all 20 lz_fixed (lzr_new (f ++ f)) [2; 5] [2; 5] [] with
+            | Ok (out, st, s) => out = z_data ++ z_data /\ st = 0 /\ lzr_unconsumed s = []
             | _ => False
             end
   | _ => False
